@@ -192,6 +192,17 @@ static void gen_params(const char *profile, uint64_t base, long idx)
 		}
 		if(prng_below(&rc, 5) == 0)
 			P.term_time_q = PICK(&rc, 10, 40, 120);
+		if(VERIF_NRANKS > 1 && prng_below(&rc, 3) == 0) {
+			/* the other ranks ship their temporary files to rank 0 with blocking sends */
+			P.n_ranks = 2 + (int64_t)prng_below(&rc, 2);
+			P.n_threads = PICK(&rc, 1, 2, 2, 3);
+			if(P.n_lps < P.n_ranks)
+				P.n_lps = P.n_ranks + (int64_t)prng_below(&rc, 6);
+			P.mpi_delay = PICK(&rs, 0, 10, 200);
+			/* a failing tmpfile() on one rank only makes rank 0 wait for ever for that rank's statistics; no property
+			 * quantifies over I/O failures, so the fault is injected in single-rank runs only (DESIGN.md 2.5) */
+			P.tmpfile_fail = 0;
+		}
 	} else if(!strcmp(profile, "c02")) {
 		P.n_ranks = 2 + (int64_t)prng_below(&rc, VERIF_NRANKS > 1 ? VERIF_NRANKS - 1 : 1);
 		P.n_threads = PICK(&rc, 1, 1, 2, 2, 3);
@@ -200,6 +211,29 @@ static void gen_params(const char *profile, uint64_t base, long idx)
 		P.mpi_delay = PICK(&rs, 0, 10, 200, 3000);
 		P.mpi_empty_probe = PICK(&rs, 0, 10, 50);
 		P.mpi_coll_delay = PICK(&rs, 0, 3, 40);
+	} else if(!strcmp(profile, "c08m")) {
+		/* shutdown across ranks: natural end, termination time, RootsimStop at a drawn point */
+		P.n_ranks = 2 + (int64_t)prng_below(&rc, VERIF_NRANKS > 1 ? VERIF_NRANKS - 1 : 1);
+		P.n_threads = PICK(&rc, 1, 2, 2, 3);
+		if(P.n_lps < P.n_ranks)
+			P.n_lps = P.n_ranks + (int64_t)prng_below(&rc, 6);
+		P.gvt_period = PICK(&rc, 0, 0, 0, 1, 5, 1000);
+		P.m_budget = PICK(&rm, 1, 3, 8, 15, 30);
+		P.mpi_delay = PICK(&rs, 0, 10, 200, 3000);
+		P.mpi_empty_probe = PICK(&rs, 0, 10, 50);
+		P.mpi_coll_delay = PICK(&rs, 0, 3, 40);
+		int how = (int)prng_below(&rc, 4);
+		if(how == 1)
+			P.term_time_q = PICK(&rc, 4, 10, 40);
+		if(how >= 2) {
+			P.stop_at = PICK(&rc, 1, 200, 1000, 3000, 10000, 30000);
+			P.stop_in_round = how == 3;
+		}
+		if(how && prng_below(&rm, 2)) {
+			P.m_absorbing = 0;
+			P.m_extra = 30;
+			P.m_pred = PICK(&rm, 0, 3);
+		}
 	} else if(c09) {
 		P.m_rng = PICK(&rm, 1, 2, 2);
 		P.n_ranks = 1 + (int64_t)prng_below(&rc, VERIF_NRANKS);
